@@ -278,6 +278,8 @@ class SimKernel(object):
     def kill(self, pid, sig, by='daemon'):
         self.boundary('kill', pid)
         sig = int(sig)
+        if sig < 0 or sig > 64:
+            raise OSError(errno.EINVAL, "Invalid argument")
         p = self.procs.get(pid)
         st = 'gone' if p is None else p.state
         entry = {"t": self.now(), "pid": pid, "sig": sig, "state": st,
